@@ -13,6 +13,10 @@
 //!   qg <graph> ; <plan tokens> ; <cypher>             C22 on the fixed graph number <graph> (built by `build_graph`, no setup lines)
 //!   limg <graph> <rows> <coll> <apply> ; <plan tokens> ; <cypher>     C33 on a fixed graph
 //!   limxg <graph> <rows> <coll> <apply> ; <cypher>    C33 on a fixed graph, engine only
+//!   qw ; <plan tokens of Q> ; <cypher of Q'>         C22: Q' = Q with sub-expressions nested in value-preserving constructs (CASE, list /
+//!                                                    pattern comprehension, reduce, quantifier, coalesce, EXISTS in a CASE condition): the
+//!                                                    model's answer for Q is the answer demanded of Q' (row counter not compared); qwg = on a graph
+//!   limw <rows> <coll> <apply> ; <tokens of Q> ; <Q'>  the same under limits (limwg on a graph); wqw / wmw for write statements
 //!   wq ; <write plan tokens> ; <cypher>              C22, write statement without RETURN (`execute_write`), never committed -> ok | err:<class>
 //!   wm ; <write plan tokens> ; <cypher>              C22, write statement with RETURN (`execute_mixed`: staged)  -> ok | err:<class>
 //!   wlim <coll> ; <write plan tokens> ; <cypher>     C33, `execute_write` under a collection limit -> complete|limit|ALTERED | lim=.. unl=..
@@ -1272,7 +1276,27 @@ impl State for S {
                     format!("{} | rows={}", o.show(), emitted)
                 }
             }
-            "wq" | "wm" => match try_write(&self.db, &last, ws[0] == "wm", unlimited()) {
+            "qw" => format!("{} | rows=-", run_query(&self.db, &last, unlimited()).0.show()),
+            "qwg" if ws.len() > 2 => {
+                let id = ws[1].parse::<u64>().unwrap_or(0);
+                format!("{} | rows=-", run_query(self.graph(id), &last, unlimited()).0.show())
+            }
+            "limw" | "limwg" if ws.len() > 5 => {
+                let g = ws[0] == "limwg";
+                let k = if g { 2 } else { 1 };
+                let o = ExecuteOptions {
+                    max_intermediate_rows: num(ws[k]),
+                    max_collection_items: num(ws[k + 1]),
+                    max_apply_rows_per_outer: num(ws[k + 2]),
+                    soft_timeout_ms: 0,
+                };
+                let id = if g { ws[1].parse::<u64>().unwrap_or(0) } else { 0 };
+                let db = if g { self.graph(id) } else { &self.db };
+                let (unl, _) = run_query(db, &last, unlimited());
+                let (lim, _) = run_query(db, &last, o);
+                format!("{} | lim={} unl={} rows=-", limited_rel(&unl, &lim), lim.show_l(), unl.show_l())
+            }
+            "wq" | "wm" | "wqw" | "wmw" => match try_write(&self.db, &last, ws[0].starts_with("wm"), unlimited()) {
                 Outcome::Rows(_) => "ok".into(),
                 Outcome::Err(e) => format!("err:{}", e),
             },
@@ -1457,7 +1481,88 @@ enum Ty {
     Bool,
 }
 
+// ---- expression nesting layer
+
+const M_OPEN: char = '\u{1}';
+const M_CLOSE: char = '\u{2}';
+const NEST_KINDS: u64 = 12;
+
+/// `e` nested in a construct that does not change its value nor the errors it raises, so that the
+/// variable / property reads and the calls of `e` sit ONLY inside CASE, a list comprehension, reduce,
+/// a quantifier, coalesce, a CASE guarded by EXISTS { }, or a pattern comprehension (`alias` = a
+/// bound node that has an outgoing :R edge) — the constructs planner-side expression walkers and
+/// hoisting optimisations tend not to descend into
+fn nest(kind: u64, e: &str, alias: Option<&str>) -> String {
+    match kind {
+        0 => format!("CASE WHEN true THEN {} ELSE null END", e),
+        1 => format!("CASE WHEN 1 = 2 THEN 0 ELSE {} END", e),
+        2 => format!("[zz IN [1] | {}][0]", e),
+        3 => format!("[zz IN [1, 2] WHERE zz = 2 | {}][0]", e),
+        4 => format!("reduce(acc = null, zz IN [1] | {})", e),
+        5 => format!("coalesce({}, null)", e),
+        6 => format!("CASE WHEN EXISTS {{ RETURN 1 AS one }} THEN {} END", e),
+        7 => format!("CASE WHEN all(zz IN [1] WHERE zz = 1) THEN {} ELSE 0 END", e),
+        8 => match alias {
+            Some(a) => format!("[({})-[:R]->() | {}][0]", a, e),
+            None => format!("CASE 1 WHEN 1 THEN {} ELSE 0 END", e),
+        },
+        9 => nest(2, &nest(0, e, alias), alias),
+        10 => nest(1, &nest(4, e, alias), alias),
+        _ => format!("reduce(acc = 0, zz IN [1, 2] | CASE WHEN zz = 2 THEN {} ELSE acc END)", e),
+    }
+}
+
+/// the same for a predicate (boolean or null): quantifiers keep its truth value
+fn nest_bool(kind: u64, p: &str) -> String {
+    match kind % 4 {
+        0 => format!("any(zz IN [1] WHERE {})", p),
+        1 => format!("all(zz IN [1] WHERE {})", p),
+        2 => format!("single(zz IN [1] WHERE {})", p),
+        _ => format!("NOT none(zz IN [1] WHERE {})", p),
+    }
+}
+
+fn strip_marks(m: &str) -> String {
+    m.chars().filter(|c| *c != M_OPEN && *c != M_CLOSE).collect()
+}
+
+/// every marked sub-expression nested (with probability 3/4 each); returns the query and how many were nested
+fn realize_nested(m: &str, rng: &mut Rng, alias: Option<&str>) -> (String, usize) {
+    let mut out = String::new();
+    let mut cur = String::new();
+    let mut depth = 0;
+    let mut k = 0;
+    for c in m.chars() {
+        if c == M_OPEN {
+            depth += 1;
+            if depth > 1 {
+                continue;
+            }
+        } else if c == M_CLOSE {
+            depth -= 1;
+            if depth == 0 {
+                if rng.chance(3, 4) {
+                    // a pattern comprehension only where the expression reads that alias
+                    let a = alias.filter(|a| cur.contains(&format!("{}.", a)));
+                    out += &nest(rng.below(NEST_KINDS), &cur, a);
+                    k += 1;
+                } else {
+                    out += &cur;
+                }
+                cur.clear();
+            }
+        } else if depth > 0 {
+            cur.push(c);
+        } else {
+            out.push(c);
+        }
+    }
+    (out, k)
+}
+
 struct QGen<'a> {
+    /// mark the generated scalar sub-expressions (for `realize_nested`)
+    mark: bool,
     rng: &'a mut Rng,
     vars: Vec<(String, Ty)>,
     next: usize,
@@ -1471,7 +1576,7 @@ struct QGen<'a> {
 
 impl<'a> QGen<'a> {
     fn new(rng: &'a mut Rng, size: i64) -> Self {
-        QGen { rng, vars: vec![], next: 0, size, min_limit: 0 }
+        QGen { mark: false, rng, vars: vec![], next: 0, size, min_limit: 0 }
     }
     fn fresh(&mut self) -> String {
         self.next += 1;
@@ -1499,7 +1604,19 @@ impl<'a> QGen<'a> {
         if c.is_empty() { None } else { Some(c[self.rng.below(c.len() as u64) as usize].clone()) }
     }
     /// an expression over the variables in scope and its type
+    fn m(&self, e: String) -> String {
+        if self.mark { format!("{}{}{}", M_OPEN, e, M_CLOSE) } else { e }
+    }
     fn expr(&mut self) -> (String, Ty) {
+        let (e, t) = self.expr0();
+        (self.m(e), t)
+    }
+    fn pred(&mut self) -> String {
+        let p = self.pred0();
+        // a bare variable as predicate stays bare (its type error is the point)
+        if p.contains(' ') || p.contains('(') { self.m(p) } else { p }
+    }
+    fn expr0(&mut self) -> (String, Ty) {
         let Some((v, t)) = self.pick_var(None) else { return ("1".into(), Ty::Int) };
         match t {
             Ty::Int => match self.rng.below(6) {
@@ -1523,7 +1640,7 @@ impl<'a> QGen<'a> {
             },
         }
     }
-    fn pred(&mut self) -> String {
+    fn pred0(&mut self) -> String {
         let Some((v, t)) = self.pick_var(None) else { return "true".into() };
         match t {
             Ty::Int => match self.rng.below(8) {
@@ -1595,7 +1712,7 @@ impl<'a> QGen<'a> {
                 (Ty::Any, _) => format!("toInteger({})", v),
                 (Ty::Bool, _) => format!("toInteger({})", v),
             };
-            s += &format!(" ORDER BY {}", key);
+            s += &format!(" ORDER BY {}", self.m(key));
         }
         s += &self.window();
         s
@@ -1852,6 +1969,23 @@ fn emit_q(out: &mut dyn Write, op: &str, cy: &str) -> bool {
     }
 }
 
+/// the nested variants of a sweep query: its raising call wrapped in three of the constructs
+fn nested_variants(cy: &str, i: usize, alias: Option<&str>) -> Vec<String> {
+    let mut out = Vec::new();
+    for call in ["toInteger(x)", "toBoolean(x)", "toBoolean(a.v)", "toBoolean(b.v)", "toBoolean(c.v)", "toInteger(a.v)", "toInteger(b.v)"] {
+        if !cy.contains(call) {
+            continue;
+        }
+        for j in 0..3u64 {
+            let kind = (i as u64 * 3 + j) % NEST_KINDS;
+            let a = alias.filter(|a| call.contains(&format!("{}.", a)));
+            out.push(cy.replace(call, &nest(kind, call, a)));
+        }
+        break;
+    }
+    out
+}
+
 fn generate_c22(rng: &mut Rng, n: usize, _tier: &str, out: &mut dyn Write) {
     writeln!(out, "#case templates").unwrap();
     for cy in C22_TEMPLATES {
@@ -1860,6 +1994,14 @@ fn generate_c22(rng: &mut Rng, n: usize, _tier: &str, out: &mut dyn Write) {
     writeln!(out, "#case sweep-eval").unwrap();
     for cy in c22_eval_sweep() {
         emit_q(out, "q", &cy);
+    }
+    // the same sweep with the raising call nested: failing row first / middle / LAST, every operator position
+    writeln!(out, "#case sweep-eval-nested").unwrap();
+    for (i, cy) in c22_eval_sweep().iter().enumerate() {
+        let Some(toks) = model_plan(cy) else { continue };
+        for v in nested_variants(cy, i, None) {
+            writeln!(out, "qw ; {} ; {}", toks, v).unwrap();
+        }
     }
     writeln!(out, "#case sweep-exists").unwrap();
     for cy in c22_exists_sweep() {
@@ -1872,15 +2014,30 @@ fn generate_c22(rng: &mut Rng, n: usize, _tier: &str, out: &mut dyn Write) {
         if made % 50 == 0 {
             writeln!(out, "#case random-{}", made / 50).unwrap();
         }
-        let cy = QGen::new(rng, 5).query();
-        if emit_q(out, "q", &cy) {
-            made += 1;
+        let marked = {
+            let mut g = QGen::new(rng, 5);
+            g.mark = true;
+            g.query()
+        };
+        let cy = strip_marks(&marked);
+        let Some(toks) = model_plan(&cy) else { continue };
+        writeln!(out, "q ; {} ; {}", toks, cy).unwrap();
+        made += 1;
+        let (nested, k) = realize_nested(&marked, rng, None);
+        if k > 0 {
+            writeln!(out, "qw ; {} ; {}", toks, nested).unwrap();
         }
     }
     generate_c22_graph(rng, n / 6, _tier, out);
     writeln!(out, "#case write-sweep").unwrap();
-    for (cy, ret) in write_sweep() {
-        emit_w(out, if ret { "wm" } else { "wq" }, &cy, ret);
+    for (i, (cy, ret)) in write_sweep().iter().enumerate() {
+        let Some(toks) = model_wplan(cy, *ret) else { continue };
+        writeln!(out, "{} ; {} ; {}", if *ret { "wm" } else { "wq" }, toks, cy).unwrap();
+        if i % 2 == 0 {
+            for v in nested_variants(cy, i, None).into_iter().take(1) {
+                writeln!(out, "{} ; {} ; {}", if *ret { "wmw" } else { "wqw" }, toks, v).unwrap();
+            }
+        }
     }
 }
 
@@ -1949,7 +2106,7 @@ const HEADS: &[Head] = &[
 
 /// a query over a fixed graph: a head, maybe a WHERE on node properties, a WITH that turns node
 /// properties into typed scalars, then the clauses of the graph-free generator
-fn graph_query(rng: &mut Rng, size: i64, min_limit: i64) -> String {
+fn graph_query(rng: &mut Rng, size: i64, min_limit: i64, mark: bool) -> String {
     let h = &HEADS[rng.below(HEADS.len() as u64) as usize];
     let mut s = h.text.to_string();
     if h.can_where && !h.nodes.is_empty() && rng.chance(1, 3) {
@@ -1984,10 +2141,11 @@ fn graph_query(rng: &mut Rng, size: i64, min_limit: i64) -> String {
     }
     let mut g = QGen::new(rng, size);
     g.min_limit = min_limit;
+    g.mark = mark;
     let mut body = Vec::new();
     for (e, t) in items {
         let a = g.fresh();
-        body.push(format!("{} AS {}", e, a));
+        body.push(format!("{} AS {}", g.m(e), a));
         g.vars.push((a, t));
     }
     let distinct = if g.rng.chance(1, 6) { "DISTINCT " } else { "" };
@@ -2103,10 +2261,16 @@ fn generate_c22_graph(rng: &mut Rng, n: usize, tier: &str, out: &mut dyn Write) 
             } else {
                 vec!["RETURN out AS x".to_string(), "RETURN DISTINCT q AS x ORDER BY x LIMIT 2".to_string()]
             };
-            for t in tails {
+            for (ti, t) in tails.iter().enumerate() {
                 stats.1 += 1;
-                if emit_qg(out, &format!("qg {}", id), &db, &format!("{} {}", h.text, t)) {
-                    stats.0 += 1;
+                let cy = format!("{} {}", h.text, t);
+                let Some(toks) = model_plan_db(&db, &cy) else { continue };
+                writeln!(out, "qg {} ; {} ; {}", id, toks, cy).unwrap();
+                stats.0 += 1;
+                // nested: the property read of the bound alias only inside the construct (`a` has an :R edge)
+                let alias = if h.nodes == ["a"] && h.text.starts_with("MATCH (a:N") { Some("a") } else { None };
+                for v in nested_variants(t, ti + *id as usize, alias).into_iter().take(1) {
+                    writeln!(out, "qwg {} ; {} ; {} {}", id, toks, h.text, v).unwrap();
                 }
             }
         }
@@ -2115,11 +2279,16 @@ fn generate_c22_graph(rng: &mut Rng, n: usize, tier: &str, out: &mut dyn Write) 
         let per = n / ids.len() + 1;
         while made < per && tries < per * 10 {
             tries += 1;
-            let cy = graph_query(rng, 4, 0);
+            let marked = graph_query(rng, 4, 0, true);
+            let cy = strip_marks(&marked);
             stats.1 += 1;
-            if emit_qg(out, &format!("qg {}", id), &db, &cy) {
-                made += 1;
-                stats.0 += 1;
+            let Some(toks) = model_plan_db(&db, &cy) else { continue };
+            writeln!(out, "qg {} ; {} ; {}", id, toks, cy).unwrap();
+            made += 1;
+            stats.0 += 1;
+            let (nested, k) = realize_nested(&marked, rng, None);
+            if k > 0 {
+                writeln!(out, "qwg {} ; {} ; {}", id, toks, nested).unwrap();
             }
         }
     }
@@ -2133,6 +2302,15 @@ fn generate_c33_graph(rng: &mut Rng, n: usize, tier: &str, out: &mut dyn Write) 
     for id in &ids {
         writeln!(out, "#case graph-{}", id).unwrap();
         let (_dir, db) = build_graph(*id);
+        for sh in [
+            "MATCH (a:N) RETURN a.i AS k, [(a)-[:R]->(b) | size(range(1, b.i * 3))] AS r",
+            "MATCH (a:N) RETURN sum(reduce(acc = 0, x IN [(a)-[:R]->(b) | b.i * 3] | acc + size(range(1, x)))) AS r",
+            "MATCH (a:N) WHERE any(x IN [(a)-[:R]->(b) | b.i] WHERE size(range(0, x * 3)) > 6) RETURN a.i AS k",
+        ] {
+            for c in [2, 4, 7, 10, 13, 16] {
+                writeln!(out, "limxg {} - {} - ; {}", id, c, sh).unwrap();
+            }
+        }
         // OPTIONAL MATCH … WHERE and the blocking operators over expansions under EVERY collection
         // limit that can matter: each of the check sites (outer / filtered / output, OrderBy.collect,
         // Aggregate.*) is the first to fail for some limit
@@ -2155,7 +2333,8 @@ fn generate_c33_graph(rng: &mut Rng, n: usize, tier: &str, out: &mut dyn Write) 
         let per = n / ids.len() + 1;
         while made < per && tries < per * 10 {
             tries += 1;
-            let cy = graph_query(rng, 6, 1);
+            let marked = graph_query(rng, 6, 1, true);
+            let cy = strip_marks(&marked);
             let Some(toks) = model_plan_db(&db, &cy) else {
                 // outside the translated fragment: engine only
                 if rng.chance(1, 4) {
@@ -2172,6 +2351,10 @@ fn generate_c33_graph(rng: &mut Rng, n: usize, tier: &str, out: &mut dyn Write) 
                 let r = pick_limit(rng, emitted);
                 let c = if rng.chance(1, 2) { "-".to_string() } else { pick_limit(rng, nrows.max(4)) };
                 writeln!(out, "limg {} {} {} - ; {} ; {}", id, r, c, toks, cy).unwrap();
+            }
+            let (nested, k) = realize_nested(&marked, rng, None);
+            if k > 0 {
+                writeln!(out, "limwg {} - {} - ; {} ; {}", id, pick_limit(rng, nrows.max(4)), toks, nested).unwrap();
             }
             made += 1;
         }
@@ -2237,6 +2420,22 @@ fn pick_limit(rng: &mut Rng, around: usize) -> String {
 }
 
 fn large_query(rng: &mut Rng) -> String {
+    // mark the scalar sub-expressions of the tail (for the nesting layer)
+    let q = large_query0(rng);
+    let m = |e: &str| format!("{}{}{}", M_OPEN, e, M_CLOSE);
+    let mut q = q.replace("RETURN a AS a", &format!("RETURN {} AS a", m("a"))).replace("collect(a)", &format!("collect({})", m("a")));
+    for (pre, post) in [("DISTINCT ", " AS m"), ("RETURN ", " AS k"), ("WITH ", " AS m, collect")] {
+        let pat = format!("{}a % ", pre);
+        if let Some(i) = q.find(&pat)
+            && let Some(j) = q[i..].find(post)
+        {
+            let (s0, e0) = (i + pre.len(), i + j);
+            q = format!("{}{}{}", &q[..s0], m(&q[s0..e0]), &q[e0..]);
+        }
+    }
+    q
+}
+fn large_query0(rng: &mut Rng) -> String {
     let n = rng.range(5, 60);
     let m = rng.range(2, 12);
     let src = match rng.below(4) {
@@ -2295,16 +2494,16 @@ fn generate_c33(rng: &mut Rng, n: usize, tier: &str, out: &mut dyn Write) {
         if made % 50 == 0 {
             writeln!(out, "#case random-{}", made / 50).unwrap();
         }
-        let cy = if rng.chance(1, 2) {
+        let marked = if rng.chance(1, 2) {
             large_query(rng)
         } else {
             let mut g = QGen::new(rng, 12);
             g.min_limit = 1;
+            g.mark = true;
             g.query()
         };
-        if model_plan(&cy).is_none() {
-            continue;
-        }
+        let cy = strip_marks(&marked);
+        let Some(base_toks) = model_plan(&cy) else { continue };
         // limits around what the unlimited run actually needs (the engine tells)
         let (o, emitted) = run_query(&db, &cy, unlimited());
         let nrows = match &o {
@@ -2316,6 +2515,47 @@ fn generate_c33(rng: &mut Rng, n: usize, tier: &str, out: &mut dyn Write) {
         let a = if rng.chance(2, 3) { "-".to_string() } else { pick_limit(rng, 6) };
         if emit_q(out, &format!("lim {} {} {}", r, c, a), &cy) {
             made += 1;
+            // the same query with its sub-expressions nested, under a collection / apply limit
+            let (nested, k) = realize_nested(&marked, rng, None);
+            if k > 0 {
+                let c2 = if c == "-" { pick_limit(rng, nrows.max(4)) } else { c.clone() };
+                writeln!(out, "limw - {} {} ; {} ; {}", c2, a, base_toks, nested).unwrap();
+            }
+        }
+    }
+    // a list built INSIDE a construct, its length depending on a variable bound by that construct
+    // (quantifier, reduce, list / pattern comprehension) or read only inside CASE: the row-level
+    // pre-check cannot see the bound; engine only — the answer must be the unlimited one or a limit error.
+    // The long list on the first / middle / LAST row, limits below, at and above the lengths.
+    writeln!(out, "#case nested-range").unwrap();
+    let shapes: &[&str] = &[
+        "RETURN any(x IN [n] WHERE size(range(1, x)) > 7) AS r",
+        "RETURN all(x IN [n, 2] WHERE size(range(1, x)) < 9) AS r",
+        "RETURN none(x IN [n] WHERE size(range(1, x)) > 7) AS r",
+        "RETURN single(x IN [n, 3] WHERE size(range(1, x)) > 7) AS r",
+        "RETURN reduce(acc = 0, x IN [n, 2] | acc + size(range(1, x))) AS r",
+        "RETURN reduce(acc = 0, x IN [1, 2] | acc + size(range(1, x * n))) AS r",
+        "RETURN sum(reduce(acc = 0, x IN [n] | acc + size(range(1, x)))) AS r",
+        "RETURN [x IN [n] | size(range(1, x))] AS r",
+        "RETURN size([x IN range(1, n) WHERE x % 2 = 0 | x]) AS r",
+        "RETURN CASE WHEN n > 0 THEN size(range(1, n)) ELSE 0 END AS r",
+        "RETURN CASE WHEN any(x IN [n] WHERE last(range(1, x)) > 7) THEN 1 ELSE 0 END AS r",
+        "WITH n WHERE any(x IN [n] WHERE size(range(1, x)) > 7) RETURN n AS r",
+        "WITH n WHERE reduce(acc = 0, x IN [n] | acc + last(range(1, x))) > 7 RETURN count(n) AS r",
+        "RETURN n AS r ORDER BY reduce(acc = 0, x IN [n] | acc + size(range(1, x))) DESC LIMIT 2",
+        "RETURN DISTINCT any(x IN [n, 1] WHERE size(range(x, 12)) > 6) AS r",
+        "RETURN reduce(acc = 0, x IN [n] | acc + size([y IN range(1, x) | y])) AS r",
+    ];
+    let lists: &[&str] = &["[12, 3, 4]", "[3, 12, 4]", "[3, 4, 12]", "[3, 4, 5]", "[12]", "[20, 12, 9]"];
+    let lims: Vec<usize> = if tier == "thorough" { (1..=22).collect() } else { vec![2, 4, 5, 8, 9, 11, 12, 13, 21] };
+    for (si, sh) in shapes.iter().enumerate() {
+        for (li, l) in lists.iter().enumerate() {
+            if tier != "thorough" && (si + li) % 2 == 1 {
+                continue;
+            }
+            for c in &lims {
+                writeln!(out, "limx - {} - ; UNWIND {} AS n {}", c, l, sh).unwrap();
+            }
         }
     }
     // engine-only: operators outside the model's fragment (node scans, expansions, var-length) on a small graph
@@ -2444,6 +2684,42 @@ fn where_pred(rng: &mut Rng, var: &str, depth: u32) -> String {
     }
 }
 
+/// `first.prop = <value>` (either operand order, maybe AND another conjunct) where the value reads
+/// the alias bound LATER in the pattern only inside a construct; the constants are values the
+/// graphs carry, so the early (later alias = null) and the real evaluation disagree on some rows
+fn nested_join_pred(rng: &mut Rng, first: &str, later: &str) -> String {
+    let (a, b) = if rng.chance(3, 4) { (first, later) } else { (later, first) };
+    let pa = *rng.pick(&["x", "y"]);
+    let pb = *rng.pick(&["x", "y"]);
+    let c1 = rng.pick(EQ_CONSTS).0;
+    let c2 = rng.pick(EQ_CONSTS).0;
+    let read = format!("{}.{}", b, pb);
+    let (e1, e2) = *rng.pick(&[("1", "2"), ("2", "1"), ("true", "false"), ("false", "true"), ("'a'", "1")]);
+    let value = match rng.below(14) {
+        12 => format!("CASE WHEN EXISTS {{ MATCH ({})-[:R]->() RETURN 1 AS one }} THEN {} ELSE {} END", b, e1, e2),
+        13 => format!("CASE WHEN EXISTS {{ MATCH ({}) WHERE {} IS NULL RETURN 1 AS one }} THEN {} ELSE {} END", b, read, e1, e2),
+        // the other alias read only inside an EXISTS subquery (which no expression walker of the planner enters)
+        10 => format!("CASE WHEN EXISTS {{ MATCH ({})-[:R]->() RETURN 1 AS one }} THEN {} ELSE {} END", b, c1, c2),
+        11 => format!("CASE WHEN EXISTS {{ MATCH ({}) WHERE {} IS NOT NULL RETURN 1 AS one }} THEN {} ELSE {} END", b, read, c1, c2),
+        0 => format!("CASE WHEN {} IS NULL THEN {} ELSE {} END", read, c1, c2),
+        1 => format!("CASE WHEN {} = {} THEN {} ELSE {} END", read, c1, c2, c1),
+        2 => format!("CASE WHEN {} > 1 THEN {} ELSE {} END", read, c1, c2),
+        3 => format!("CASE {} WHEN {} THEN {} ELSE {} END", read, c1, c1, c2),
+        4 => format!("[zz IN [{}] | zz][0]", read),
+        5 => format!("reduce(acc = {}, zz IN [{}] | zz)", c1, read),
+        6 => format!("CASE WHEN any(zz IN [{}] WHERE zz IS NOT NULL) THEN {} ELSE {} END", read, c1, c2),
+        7 => format!("coalesce({}, {})", read, c1),
+        8 => format!("[zz IN [1] WHERE {} IS NOT NULL | {}][0]", read, c2),
+        _ => nest(rng.below(NEST_KINDS), &read, None),
+    };
+    let eq = if rng.chance(1, 4) { format!("{} = {}.{}", value, a, pa) } else { format!("{}.{} = {}", a, pa, value) };
+    match rng.below(4) {
+        0 => format!("{} AND {}.name IS NOT NULL", eq, b),
+        1 => format!("{}.name IS NOT NULL AND {}", a, eq),
+        _ => eq,
+    }
+}
+
 fn generate_c19(rng: &mut Rng, n: usize, _tier: &str, out: &mut dyn Write) {
     let cases = (n / 25).max(1);
     let per_case = n.div_ceil(cases);
@@ -2523,7 +2799,38 @@ fn generate_c19(rng: &mut Rng, n: usize, _tier: &str, out: &mut dyn Write) {
                 6 => ("MATCH (n:P) OPTIONAL MATCH (n)-[:R]->(m) WITH n, m".to_string(), "m", "RETURN n.name AS a, m.name AS b"),
                 _ => ("UNWIND [{x: 1, y: true, name: 'a'}, {x: 'str', name: 'b'}, {y: false}, {x: null}] AS n WITH n".to_string(), "n", "RETURN n.name AS name"),
             };
-            let (pred, params) = if rng.chance(2, 5) { eq_conjunction(rng, var) } else { (where_pred(rng, var, 1), vec![]) };
+            // a third of the lines: two aliases, an equality whose value reads the OTHER alias only
+            // inside CASE / a comprehension / reduce / a quantifier (join keys the planner may push down)
+            let two: Option<(String, &str, &str, &str)> = if rng.chance(1, 3) {
+                Some(match rng.below(6) {
+                    0 => (format!("MATCH (n:P{})-[:R]->(m)", inline(rng)), "n", "m", "RETURN n.name AS a, m.name AS b"),
+                    1 => ("MATCH (n)-[:R]->(m)".to_string(), "n", "m", "RETURN n.name AS a, m.name AS b"),
+                    2 => ("MATCH (m)<-[:R]-(n)".to_string(), "m", "n", "RETURN n.name AS a, m.name AS b"),
+                    3 => ("MATCH (n:P), (m)".to_string(), "n", "m", "RETURN n.name AS a, m.name AS b"),
+                    4 => ("MATCH (n), (m:P)".to_string(), "n", "m", "RETURN n.name AS a, m.name AS b"),
+                    _ => ("MATCH (n)-[:R]-(m)".to_string(), "n", "m", "RETURN n.name AS a, m.name AS b"),
+                })
+            } else {
+                None
+            };
+            let (prefix, var, suffix) = match &two {
+                Some((p, _, _, sfx)) => (p.clone(), "n", *sfx),
+                None => (prefix, var, suffix),
+            };
+            let (pred, params) = if let Some((_, first, later, _)) = &two {
+                (nested_join_pred(rng, first, later), vec![])
+            } else if rng.chance(2, 5) {
+                eq_conjunction(rng, var)
+            } else {
+                let p = where_pred(rng, var, 1);
+                // now and then the whole predicate inside a quantifier / CASE
+                let p = match rng.below(8) {
+                    0 => nest_bool(rng.below(4), &p),
+                    1 => format!("CASE WHEN true THEN {} END", p),
+                    _ => p,
+                };
+                (p, vec![])
+            };
             let pstr: Vec<&str> = params.iter().map(|x| x.as_str()).collect();
             let ps = parse_params(&pstr);
             let Some(classes) = classes_of(&db, &prefix, &pred, &ps) else { continue };
